@@ -33,6 +33,18 @@ def _nnf_disjuncts(e: ast.AST, neg: bool = False) -> list[tuple[ast.AST, bool]] 
 def idle_disjuncts(test: ast.AST, self_: str) -> set[str]:
     """Which parts of "not idle" the test (a condition for going on waiting) covers: flag down / something started / something pending / queue non-empty.  The test may be written
     in any and / or / not arrangement that amounts to a disjunction of those (`not (flag and not (started or pending))` is `not flag or started or pending`)."""
+    import copy as _copy
+
+    from sa.facts import TEST_REWRITERS
+
+    class _Rw(ast.NodeTransformer):  # the registered equivalences of tests (e.g. a quantifier over the history for `events_pending or events_started`) apply to sub-tests too
+        def visit_Call(self, node):  # noqa: N802
+            self.generic_visit(node)
+            for rw in TEST_REWRITERS:
+                node = rw(node)
+            return node
+
+    test = _Rw().visit(_copy.deepcopy(test))
     lits = _nnf_disjuncts(test)
     if lits is None:
         return {'?' + U(test)}
@@ -211,8 +223,10 @@ def c15_2(c: Ctx) -> None:
         qs = [U(x) for x in own_nodes(u.node) if isinstance(x, ast.Call) and call_name(x) == 'qsize' and 'event_queue' in U(x)]
         qatom = qs[0] if qs else f'{self_}.event_queue.qsize()'
         atoms = {f'{self_}.events_pending', f'{self_}.events_started', qatom}
-        facts = Facts(lambda a: a in atoms, cg=c.cg, unit=u)
-        guard = f'not ({self_}.events_pending or {self_}.events_started or {qatom})'
+        qrecv = qatom[:-len('.qsize()')] if qatom.endswith('.qsize()') else f'{self_}.event_queue'
+        some_queued = f'{qrecv} is not None and {qatom}'  # "something is queued" may be spelled with the no-queue case in front: no queue, nothing queued
+        facts = Facts(lambda a: a in atoms or a.isidentifier() or a in (qrecv, some_queued), cg=c.cg, unit=u)  # (locals too: a verdict held in a flag, the result of a folded helper)
+        guard = f'not ({self_}.events_pending or {self_}.events_started or ({some_queued}))'
         bad = [p for n in g.nodes_of(q.stmt_of(call)) if (p := q.guard_search(g, n, guard, facts)) is not None]
         if not bad:
             c.ok(where(u, call), f'flag set only when `{guard}` is known')
